@@ -639,3 +639,155 @@ Lemma mixed_clocks_refuted :
 Proof.
   exists [(1000, Some 5); (2000, None); (2001, Some 6)]. repeat split; vm_compute; reflexivity.
 Qed.
+
+(** * Replays during which the connector is stopped and started again *)
+
+Lemma capture_replay_times :
+  forall rnd hub d start l,
+    let out := capture_replay rnd hub d start l in
+    map o_time out = written_times rnd start (clocks_of l)
+    /\ map o_rel out = relative_times (written_times rnd start (clocks_of l)).
+Proof.
+  intros rnd hub d start l. cbv zeta. unfold capture_replay, replay_with. cbv zeta.
+  set (Ts := written_times rnd start (clocks_of l)).
+  set (rels := relative_times Ts).
+  assert (HlT : length Ts = length l).
+  { subst Ts. unfold written_times. rewrite map_length, eff_times_length. unfold clocks_of. apply map_length. }
+  assert (Hlen : length rels = length Ts).
+  { subst rels. unfold relative_times. destruct Ts; [reflexivity | apply map_length]. }
+  assert (Hlc : length l = length (combine Ts rels)) by (rewrite combine_length; lia).
+  split; rewrite map_map.
+  - transitivity (map fst (map snd (combine l (combine Ts rels)))).
+    + rewrite map_map. apply map_ext. intros [p [T rel]]. reflexivity.
+    + rewrite map_snd_combine by exact Hlc. apply map_fst_combine. lia.
+  - transitivity (map snd (map snd (combine l (combine Ts rels)))).
+    + rewrite map_map. apply map_ext. intros [p [T rel]]. reflexivity.
+    + rewrite map_snd_combine by exact Hlc. apply map_snd_combine. lia.
+Qed.
+
+Lemma replay_ops_origin {A} (ops : list rop) :
+  forall st (recs : list (Z * A)) o, r_origin st = Some o ->
+    replay_ops st ops recs = map (fun x => (read_ts (fst x) - o, snd x)) (firstn (eff_reads (r_started st) ops) recs).
+Proof.
+  induction ops as [|op ops IH]; intros st recs o Ho; [reflexivity|].
+  destruct op; cbn [replay_ops eff_reads].
+  - rewrite (IH _ recs o) by exact Ho. reflexivity.
+  - rewrite (IH _ recs o) by exact Ho. reflexivity.
+  - destruct (r_started st) eqn:Es.
+    + destruct recs as [|[T a] recs']; [reflexivity|].
+      rewrite Ho. cbn [firstn map fst snd]. f_equal.
+      rewrite (IH _ recs' o) by reflexivity. reflexivity.
+    + rewrite (IH _ recs o) by exact Ho. rewrite Es. reflexivity.
+Qed.
+
+Definition rel_recs {A} (recs : list (Z * A)) : list (Z * A) :=
+  match recs with
+  | [] => []
+  | (T0, _) :: _ => map (fun x => (read_ts (fst x) - read_ts T0, snd x)) recs
+  end.
+
+Lemma replay_ops_fresh {A} (ops : list rop) :
+  forall st (recs : list (Z * A)), r_origin st = None ->
+    replay_ops st ops recs = firstn (eff_reads (r_started st) ops) (rel_recs recs).
+Proof.
+  induction ops as [|op ops IH]; intros st recs Ho; [reflexivity|].
+  destruct op; cbn [replay_ops eff_reads].
+  - rewrite IH by exact Ho. reflexivity.
+  - rewrite IH by exact Ho. reflexivity.
+  - destruct (r_started st) eqn:Es.
+    + destruct recs as [|[T a] recs']; [reflexivity|].
+      rewrite Ho. unfold rel_recs. cbn [map firstn fst snd]. f_equal.
+      rewrite (replay_ops_origin ops _ recs' (read_ts T)) by reflexivity.
+      rewrite firstn_map. reflexivity.
+    + rewrite IH by exact Ho. rewrite Es. reflexivity.
+Qed.
+
+Lemma sortedb_firstn n : forall l, sortedb l = true -> sortedb (firstn n l) = true.
+Proof.
+  induction n as [|n IH]; intros l H; [reflexivity|].
+  destruct l as [|a l]; [reflexivity|]. cbn [firstn].
+  apply sortedb_cons in H as [Ha H]. apply sortedb_cons. split; [|apply IH; exact H].
+  destruct n; [exact I|]. destruct l as [|b l]; [exact I | exact Ha].
+Qed.
+
+Lemma Forall_firstn_of {A} (P : A -> Prop) n : forall l, Forall P l -> Forall P (firstn n l).
+Proof.
+  induction n as [|n IH]; intros l H; [constructor|].
+  destruct l as [|a l]; [constructor|]. inversion H; subst. cbn [firstn]. constructor; [assumption | apply IH; assumption].
+Qed.
+
+Lemma eff_reads_repeat m : eff_reads true (repeat RRead m) = m.
+Proof. induction m as [|m IH]; [reflexivity|]. cbn [repeat eff_reads]. rewrite IH. reflexivity. Qed.
+
+Lemma eff_reads_repeat_app m rest : (eff_reads true rest <= eff_reads true (repeat RRead m ++ rest))%nat.
+Proof. induction m as [|m IH]; [cbn; lia|]. cbn [repeat app eff_reads]. lia. Qed.
+
+Lemma eff_reads_restart ks n : (n < eff_reads false (restart_ops ks n))%nat.
+Proof.
+  unfold restart_ops. cbn [eff_reads].
+  induction ks as [|k ks IH]; cbn [flat_map app].
+  - rewrite eff_reads_repeat. lia.
+  - rewrite <- !app_assoc. eapply Nat.lt_le_trans; [|apply eff_reads_repeat_app].
+    cbn [app eff_reads]. exact IH.
+Qed.
+
+Lemma rel_recs_aux c (L : list pout) :
+  map o_rel L = map (fun T => read_ts T - c) (map o_time L) ->
+  map (fun x : Z * pout => (read_ts (fst x) - c, snd x)) (map (fun o => (o_time o, o)) L) = map (fun o => (o_rel o, o)) L.
+Proof.
+  induction L as [|o L IH]; intros H; [reflexivity|].
+  cbn [map] in *. injection H as H0 H. cbn [fst snd]. rewrite H0. f_equal. apply IH. exact H.
+Qed.
+
+Lemma rel_recs_of_out (out : list pout) :
+  map o_rel out = relative_times (map o_time out) ->
+  rel_recs (map (fun o => (o_time o, o)) out) = map (fun o => (o_rel o, o)) out.
+Proof.
+  destruct out as [|o0 r]; [reflexivity|]. intros H.
+  apply (rel_recs_aux (read_ts (o_time o0)) (o0 :: r)). exact H.
+Qed.
+
+(** the extension of order_and_monotone_time to op sequences *)
+Lemma order_and_monotone_time_ops :
+  forall rnd hub d start (l : list pin) (ops : list rop),
+    monotone rnd ->
+    Forall (fun p => frame_ok d (i_frame p) = true) l ->
+    sortedb (map fst (clocks_of l)) = true ->
+    sortedb (ts_list (clocks_of l)) = true ->
+    (all_some (clocks_of l) \/ exists D, offset_consistent D (clocks_of l)) ->
+    let out := capture_replay rnd hub d start l in
+    let del := capture_replay_ops rnd hub d start l ops in
+    let n := eff_reads false ops in
+    del = firstn n (map (fun o => (o_rel o, o)) out)
+    /\ map (fun x => o_frame (snd x)) del = firstn n (map i_frame l)
+    /\ sortedb (map fst del) = true
+    /\ Forall (fun r => 0 <= r) (map fst del)
+    /\ ((length l <= n)%nat -> map fst del = map o_rel out /\ map (fun x => o_frame (snd x)) del = map i_frame l).
+Proof.
+  intros rnd hub d start l ops Hr Hf Hn Ht Hc. cbv zeta.
+  destruct (order_and_monotone_time rnd hub d start l Hr Hf Hn Ht Hc) as (Hfr & _ & Hs & Hpos & _).
+  destruct (capture_replay_times rnd hub d start l) as [Htime Hrel].
+  set (out := capture_replay rnd hub d start l) in *.
+  assert (Hdel : capture_replay_ops rnd hub d start l ops
+                 = firstn (eff_reads false ops) (map (fun o => (o_rel o, o)) out)).
+  { unfold capture_replay_ops. fold out. rewrite replay_ops_fresh by reflexivity. cbn [r_init r_started]. f_equal.
+    apply rel_recs_of_out. rewrite Hrel, Htime. reflexivity. }
+  rewrite Hdel.
+  assert (H1 : map fst (firstn (eff_reads false ops) (map (fun o => (o_rel o, o)) out))
+               = firstn (eff_reads false ops) (map o_rel out)).
+  { rewrite <- firstn_map, map_map. reflexivity. }
+  assert (H2 : map (fun x : Z * pout => o_frame (snd x)) (firstn (eff_reads false ops) (map (fun o => (o_rel o, o)) out))
+               = firstn (eff_reads false ops) (map i_frame l)).
+  { rewrite <- firstn_map, map_map. cbn [snd]. rewrite <- Hfr. reflexivity. }
+  rewrite H1, H2. repeat split.
+  - apply sortedb_firstn. exact Hs.
+  - apply Forall_firstn_of. exact Hpos.
+  - apply firstn_all2. rewrite map_length. unfold out, capture_replay, replay_with.
+    rewrite map_length, combine_length, combine_length.
+    assert (length (written_times rnd start (clocks_of l)) = length l).
+    { unfold written_times. rewrite map_length, eff_times_length. unfold clocks_of. apply map_length. }
+    assert (length (relative_times (written_times rnd start (clocks_of l))) = length l).
+    { rewrite <- H0. unfold relative_times. destruct (written_times rnd start (clocks_of l)); [reflexivity | apply map_length]. }
+    lia.
+  - apply firstn_all2. rewrite map_length. exact H.
+Qed.
